@@ -52,6 +52,10 @@ type EtcdStore struct {
 	available int32
 	lastError atomic.Value // stores etcdError
 	persistMu sync.Mutex   // serializes snapshot read/write to avoid out-of-order etcd puts
+	// snapshotRev is the etcd mod revision of the snapshot this store last read or
+	// wrote (0: none yet). Admin operations write the snapshot only if it is still at
+	// that revision, so a broker never overwrites another broker's admin change.
+	snapshotRev int64
 }
 
 func (s *EtcdStore) EtcdClient() *clientv3.Client {
@@ -387,6 +391,9 @@ func (s *EtcdStore) CreatePartitions(ctx context.Context, topic string, partitio
 	// between and the acknowledged growth is persisted (and served) as the old count.
 	s.persistMu.Lock()
 	defer s.persistMu.Unlock()
+	if err := s.syncSnapshotLocked(ctx); err != nil {
+		return err
+	}
 	meta, err := s.metadata.Metadata(ctx, []string{topic})
 	if err != nil {
 		return err
@@ -451,6 +458,9 @@ func (s *EtcdStore) CreateTopic(ctx context.Context, spec TopicSpec) (*protocol.
 	s.persistMu.Lock()
 	defer s.persistMu.Unlock()
 
+	if err := s.syncSnapshotLocked(ctx); err != nil {
+		return nil, err
+	}
 	topic, err := s.metadata.CreateTopic(ctx, spec)
 	if err != nil {
 		return nil, err
@@ -486,6 +496,9 @@ func (s *EtcdStore) DeleteTopic(ctx context.Context, name string) error {
 	s.persistMu.Lock()
 	defer s.persistMu.Unlock()
 
+	if err := s.syncSnapshotLocked(ctx); err != nil {
+		return err
+	}
 	metaCtx, cancel := context.WithTimeout(ctx, 3*time.Second)
 	defer cancel()
 	state, err := s.metadata.Metadata(metaCtx, []string{name})
@@ -589,9 +602,51 @@ func (s *EtcdStore) persistSnapshotLocked(ctx context.Context) error {
 	}
 	putCtx, cancel := context.WithTimeout(ctx, 5*time.Second)
 	defer cancel()
-	_, err = s.client.Put(putCtx, snapshotKey(), string(payload))
+	// Write only if the snapshot is still the one this change was applied to.
+	cmp := clientv3.Compare(clientv3.ModRevision(snapshotKey()), "=", s.snapshotRev)
+	if s.snapshotRev == 0 {
+		cmp = clientv3.Compare(clientv3.Version(snapshotKey()), "=", 0)
+	}
+	resp, err := s.client.Txn(putCtx).If(cmp).Then(clientv3.OpPut(snapshotKey(), string(payload))).Commit()
 	s.recordEtcdResult(err)
-	return err
+	if err != nil {
+		return err
+	}
+	if !resp.Succeeded {
+		// Another writer changed the snapshot in between: drop the local change by
+		// reloading and let the caller retry.
+		_ = s.syncSnapshotLocked(ctx)
+		return ErrSnapshotConflict
+	}
+	s.snapshotRev = resp.Header.Revision
+	return nil
+}
+
+// ErrSnapshotConflict is returned when the metadata snapshot was changed by another
+// writer while an admin operation was being applied; the operation can be retried.
+var ErrSnapshotConflict = errors.New("metadata snapshot changed concurrently")
+
+// syncSnapshotLocked loads the current snapshot from etcd into memory and remembers its
+// revision. Caller holds persistMu. A missing snapshot keeps the in-memory state.
+func (s *EtcdStore) syncSnapshotLocked(ctx context.Context) error {
+	getCtx, cancel := context.WithTimeout(ctx, 5*time.Second)
+	defer cancel()
+	resp, err := s.client.Get(getCtx, snapshotKey())
+	s.recordEtcdResult(err)
+	if err != nil {
+		return err
+	}
+	if len(resp.Kvs) == 0 {
+		s.snapshotRev = 0
+		return nil
+	}
+	var snapshot ClusterMetadata
+	if err := json.Unmarshal(resp.Kvs[0].Value, &snapshot); err != nil {
+		return err
+	}
+	s.metadata.Update(snapshot)
+	s.snapshotRev = resp.Kvs[0].ModRevision
+	return nil
 }
 
 func (s *EtcdStore) deleteTopicOffsets(ctx context.Context, topic string) error {
